@@ -218,6 +218,7 @@ func runC10(c *report.Ctx) {
 	ruleFlagByteRMW(c)
 	ruleMaturityPerTemplate(c)
 	ruleRelevantIndexStored(c)
+	ruleUnminedCreditCheckedPerOutput(c)
 
 	ruleImportAppliesSpends(c)
 	// a deposit is reported withdrawable exactly from the confirmation count its script's lock demands
